@@ -278,7 +278,7 @@ func propC19(w *World, r *Report) {
 		ret    string
 	}
 	analyse := func(fn *ssa.Function) ([]pathInfo, bool) {
-		paths, complete := enumPaths(e, fn, 64)
+		paths, complete := enumPathsInl(e, fn, 64, ringHelper(ri, fn))
 		var out []pathInfo
 		for _, p := range paths {
 			pi := pathInfo{p: p, conds: guardStrings(p.Conds), stores: map[int]string{}}
@@ -564,7 +564,7 @@ func checkRingResetAndOldest(w *World, r *Report, rule string) {
 	}
 	e := newTermEnv(w)
 	stores := func(fn *ssa.Function) (map[int]string, []*Path) {
-		paths, _ := enumPaths(e, fn, 16)
+		paths, _ := enumPathsInl(e, fn, 16, ringHelper(ri, fn))
 		out := map[int]string{}
 		for _, p := range paths {
 			for _, in := range p.Instrs {
@@ -608,7 +608,7 @@ func checkRingHistoryForms(w *World, r *Report, rule string) {
 	N, CUR, OLD, FULL, FR, ORD := ri.N, ri.CUR, ri.OLD, ri.FULL, ri.FR, ri.ORD
 	next := "rem((" + CUR + " + 1), " + N + ")"
 	H := "motion.FrameLoop." + ri.full.Name() + "(recv:motion.FrameLoop)"
-	paths, complete := enumPaths(e, ri.methods["GetHistory"], 16)
+	paths, complete := enumPathsInl(e, ri.methods["GetHistory"], 16, ringHelper(ri, ri.methods["GetHistory"]))
 	okH := complete && len(paths) == 2
 	var got []string
 	for _, p := range paths {
@@ -668,7 +668,7 @@ func checkRingMove(w *World, r *Report, rule string) {
 	}
 	e := newTermEnv(w)
 	fn := ri.methods["Move"]
-	paths, complete := enumPaths(e, fn, 64)
+	paths, complete := enumPathsInl(e, fn, 64, ringHelper(ri, fn))
 	next := "rem((" + ri.CUR + " + 1), " + ri.N + ")"
 	ok := complete && len(paths) == 4
 	var descr []string
@@ -709,4 +709,11 @@ func checkRingCapacityExact(w *World, r *Report, rule string) {
 		return
 	}
 	r.Check(ri.capTerm == "param:int", rule, "ring constructor: the capacity is the size argument itself (exactly the requested number of slots)", w.Pos(ri.Ctor.Pos()), ri.capTerm)
+}
+
+// ringHelper: unexported loop-free methods of the ring other than the full-history helper are unfolded into the method
+// under analysis (an extracted "advance" step, an extracted index computation).
+func ringHelper(ri *ringInfo, fn *ssa.Function) func(*ssa.Function) bool {
+	same := sameReceiverHelperOf(fn)
+	return func(c *ssa.Function) bool { return c != ri.full && same(c) }
 }
